@@ -1,0 +1,197 @@
+// Copyright 2023-2026 Buf Technologies, Inc.
+//
+// Licensed under the Apache License, Version 2.0 (the "License");
+// you may not use this file except in compliance with the License.
+// You may obtain a copy of the License at
+//
+//      http://www.apache.org/licenses/LICENSE-2.0
+//
+// Unless required by applicable law or agreed to in writing, software
+// distributed under the License is distributed on an "AS IS" BASIS,
+// WITHOUT WARRANTIES OR CONDITIONS OF ANY KIND, either express or implied.
+// See the License for the specific language governing permissions and
+// limitations under the License.
+
+//go:build verif
+
+package vanguard
+
+import (
+	"bytes"
+	"sync"
+)
+
+// Verification hooks (build tag "verif"). When enabled through
+// VerifPoolEnable, every bufferPool is replaced by one deterministic,
+// instrumented free list (LIFO: the buffer released last is the one handed out
+// next, or FIFO), released buffers are filled with a poison byte, and the bookkeeping
+// detects a buffer released twice, a buffer handed out while still in use, and
+// writes into a buffer after its release.
+
+// VerifPoison is the byte released buffers are filled with.
+const VerifPoison = 0xA5
+
+// VerifPoolStats is a snapshot of the instrumented pool's counters.
+type VerifPoolStats struct {
+	Gets         int // buffers handed out
+	Puts         int // buffers released
+	DoublePuts   int // a buffer released although it already sits in the free list
+	LiveGets     int // a buffer handed out although it was never released
+	PoisonBroken int // a released buffer was written to before being handed out again
+	Reused       int // Gets served from the free list
+	MaxCap       int // largest capacity of any buffer released or handed out
+	Live         int // buffers currently handed out and not released
+	Free         int // buffers in the free list
+}
+
+var verifPool struct {
+	mu      sync.Mutex
+	enabled bool
+	poison  bool
+	fifo    bool
+	free    []*bytes.Buffer
+	inFree  map[*bytes.Buffer]bool
+	live    map[*bytes.Buffer]bool
+	stats   VerifPoolStats
+}
+
+// VerifPoolEnable switches all buffer pools to the instrumented free list.
+// With fifo the buffer released first is handed out first (a released buffer
+// then stays in the free list as long as possible), otherwise the one
+// released last.
+func VerifPoolEnable(poison, fifo bool) {
+	verifPool.mu.Lock()
+	defer verifPool.mu.Unlock()
+	verifPool.enabled = true
+	verifPool.poison = poison
+	verifPool.fifo = fifo
+	verifPool.free = nil
+	verifPool.inFree = map[*bytes.Buffer]bool{}
+	verifPool.live = map[*bytes.Buffer]bool{}
+	verifPool.stats = VerifPoolStats{}
+}
+
+// VerifPoolDisable restores the regular sync.Pool behaviour.
+func VerifPoolDisable() {
+	verifPool.mu.Lock()
+	defer verifPool.mu.Unlock()
+	verifPool.enabled = false
+	verifPool.free = nil
+	verifPool.inFree = nil
+	verifPool.live = nil
+}
+
+// VerifPoolSnapshot returns the counters; with reset it also zeroes the
+// event counters (the free list and the set of live buffers are kept).
+func VerifPoolSnapshot(reset bool) VerifPoolStats {
+	verifPool.mu.Lock()
+	defer verifPool.mu.Unlock()
+	if verifPool.poison {
+		// Released buffers must still be fully poisoned; a broken one is counted
+		// once and poisoned again.
+		for _, buffer := range verifPool.free {
+			if !verifIntact(buffer) {
+				verifPool.stats.PoisonBroken++
+				verifPoisonBuffer(buffer)
+			}
+		}
+	}
+	out := verifPool.stats
+	out.Live = len(verifPool.live)
+	out.Free = len(verifPool.free)
+	if reset {
+		verifPool.stats = VerifPoolStats{}
+	}
+	return out
+}
+
+// VerifPoolForgetLive drops the record of buffers that are handed out (for
+// example after a request was abandoned on purpose).
+func VerifPoolForgetLive() {
+	verifPool.mu.Lock()
+	defer verifPool.mu.Unlock()
+	verifPool.live = map[*bytes.Buffer]bool{}
+}
+
+func verifPoolTake(*bufferPool) *bytes.Buffer {
+	verifPool.mu.Lock()
+	defer verifPool.mu.Unlock()
+	if !verifPool.enabled {
+		return nil
+	}
+	verifPool.stats.Gets++
+	var buffer *bytes.Buffer
+	if n := len(verifPool.free); n > 0 {
+		if verifPool.fifo {
+			buffer = verifPool.free[0]
+			verifPool.free = append(verifPool.free[:0:0], verifPool.free[1:]...)
+		} else {
+			buffer = verifPool.free[n-1]
+			verifPool.free = verifPool.free[:n-1]
+		}
+		delete(verifPool.inFree, buffer)
+		verifPool.stats.Reused++
+		if verifPool.poison && !verifIntact(buffer) {
+			verifPool.stats.PoisonBroken++
+		}
+		buffer.Reset()
+	} else {
+		buffer = bytes.NewBuffer(make([]byte, 0, initialBufferSize))
+	}
+	if verifPool.live[buffer] {
+		verifPool.stats.LiveGets++
+	}
+	verifPool.live[buffer] = true
+	if c := buffer.Cap(); c > verifPool.stats.MaxCap {
+		verifPool.stats.MaxCap = c
+	}
+	return buffer
+}
+
+func verifPoolPut(_ *bufferPool, buffer *bytes.Buffer) bool {
+	verifPool.mu.Lock()
+	defer verifPool.mu.Unlock()
+	if !verifPool.enabled {
+		return false
+	}
+	verifPool.stats.Puts++
+	if c := buffer.Cap(); c > verifPool.stats.MaxCap {
+		verifPool.stats.MaxCap = c
+	}
+	if verifPool.inFree[buffer] {
+		verifPool.stats.DoublePuts++
+		return true
+	}
+	delete(verifPool.live, buffer)
+	if buffer.Cap() > maxRecycleBufferSize {
+		return true
+	}
+	if verifPool.poison {
+		verifPoisonBuffer(buffer)
+	}
+	verifPool.inFree[buffer] = true
+	verifPool.free = append(verifPool.free, buffer)
+	return true
+}
+
+// verifIntact reports whether a released buffer is still empty and filled
+// with the poison byte over its whole capacity.
+func verifIntact(buffer *bytes.Buffer) bool {
+	if buffer.Len() != 0 {
+		return false // somebody wrote to it
+	}
+	for _, c := range buffer.Bytes()[:buffer.Cap()] {
+		if c != VerifPoison {
+			return false
+		}
+	}
+	return true
+}
+
+func verifPoisonBuffer(buffer *bytes.Buffer) {
+	buffer.Reset()
+	bs := buffer.Bytes()[:buffer.Cap()]
+	for i := range bs {
+		bs[i] = VerifPoison
+	}
+}
